@@ -284,11 +284,22 @@ inductive Lookup where
   | noSuchName          -- `AttributeError("No fake data type named …")`
   deriving DecidableEq, Repr
 
-/-- `name = origname.lower(); meth = self.fake_names.get(name, NotImplemented)` -/
+/-- What a `dict.get(key, NotImplemented)` result means for the lookup: `NotImplemented`
+    (explicit or by default) is "nothing found". -/
+def implOf : Option TVal → Option Prov
+  | some (.impl p) => some p
+  | _ => none
+
+/-- `name = origname.lower(); meth = self.fake_names.get(name, NotImplemented)`, and — since fix
+    6b5b124 — `if meth == NotImplemented: meth = self.fake_names.get(name.replace("_", ""), NotImplemented)`:
+    the spelling as written first, then its canonical (no-underscore) form. -/
 def getFake (t : List (Str × TVal)) (orig : Str) : Lookup :=
-  match dictGet t (lower orig) with
-  | some (.impl p) => .found p
-  | _ => .noSuchName
+  match implOf (dictGet t (lower orig)) with
+  | some p => .found p
+  | none =>
+    match implOf (dictGet t (noUnderscore (lower orig))) with
+    | some p => .found p
+    | none => .noSuchName
 
 /-- `dir(FakeNames(...))` without the names starting with `_` (bridged to the class body by
     `Props.C18Bridge.snow_attrs`). `count`/`index` come from `tuple`, `f`/`faker_context` are the
@@ -442,6 +453,9 @@ def Consistent (es : List (Str × TVal)) : Prop :=
 
 /-- `s` is `n` in any mixture of upper and lower case, with all or none of its underscores -/
 def Spelling (s n : Str) : Prop := lower s = lower n ∨ lower s = canon n
+
+/-- `s` is `n` up to case and up to underscores anywhere (any subset dropped, any added) -/
+def AnySpelling (s n : Str) : Prop := canon s = canon n
 
 def resolve : TVal → Lookup
   | .impl p => .found p
